@@ -66,7 +66,45 @@ def one_run(binp, workdir, idx, seed, ncases):
         res["obad"], res["oknown"] = oracle_failures(read_lines(orc))
         if os.path.exists(st):
             res["stats"] = dict((l.split()[0], int(l.split()[1])) for l in read_lines(st))
+        res["stats"].update(hypothesis_stats(d, o, c))
     return res
+
+
+HYPS = ("keysNodup", "infoNames", "depths", "skeleton", "memA", "memB", "distinctSlots")
+
+
+def hypothesis_stats(d, mi, c):
+    """Statistics only, never a verdict: after every `build a b` the real code answered with ret=0, ask the model (op `hyp`)
+    whether the decidable hypotheses of the whole-tree theorems (C16_apply_build, C16_reverse_apply_build,
+    C16_build_distinct_slots) hold of the two topologies as observed by the harness.  InfoNamesDistinct is violated on
+    purpose by the F13c input class (and DistinctSlots is only proved under it); the other hypotheses are expected to hold of
+    every real topology."""
+    mi2, m2 = os.path.join(d, "min_hyp.txt"), os.path.join(d, "m_hyp.out")
+    n = 0
+    with open(mi2, "w") as fh:
+        for i, l in enumerate(mi):
+            fh.write(l + "\n")
+            t = l.split()
+            if len(t) == 3 and t[0] == "build" and i < len(c) and c[i].startswith("ret=0 "):
+                fh.write("hyp %s %s\n" % (t[1], t[2]))
+                n += 1
+    out = {"build0_pairs": n, "build0_pairs_all_theorem_hypotheses_hold": 0, "build0_pairs_info_names_distinct": 0,
+           "build0_pairs_info_names_distinct_but_another_hypothesis_fails": 0}
+    out.update(("build0_pairs_fail_" + h, 0) for h in HYPS)
+    if not n:
+        return out
+    run_model(ENGINE, mi2, m2)
+    for l in read_lines(m2):
+        if not l.startswith("hyp ret=0 "):
+            continue
+        kv = dict(x.split("=") for x in l.split()[1:])
+        ok = [kv.get(h) == "1" for h in HYPS]
+        out["build0_pairs_all_theorem_hypotheses_hold"] += all(ok)
+        for h, v in zip(HYPS, ok):
+            out["build0_pairs_fail_" + h] += not v
+        out["build0_pairs_info_names_distinct"] += kv.get("infoNames") == "1"
+        out["build0_pairs_info_names_distinct_but_another_hypothesis_fails"] += kv.get("infoNames") == "1" and not all(ok)
+    return out
 
 
 def case_slice(ops, upto_opno):
